@@ -23,6 +23,22 @@ import (
 	"github.com/containers/nri-plugins/pkg/resmgr/cache"
 )
 
+// label prefix of the assertions below: "C13", or "C05.reconfigure" when the
+// same scenario is run for C05 (what is pushed to the runtime after a
+// configuration update, accepted or reverted)
+var verifC13P = "C13"
+
+// VerifC05ReconfigurePush: the scenario of VerifC13ResmgrRevert, judged as
+// C05's "updates are pushed after a reconfiguration": after every configuration
+// update - accepted, rejected, or rejected after the policy re-pinned
+// containers - the runtime has been told the current assignment, exactly one
+// push followed the last policy call, and nothing is left pending.
+func VerifC05ReconfigurePush() {
+	verifC13P = "C05.reconfigure"
+	defer func() { verifC13P = "C13" }()
+	VerifC13ResmgrRevert()
+}
+
 func VerifC13ResmgrRevert() {
 	w := verifNewWorld()
 	w.withLinux = true
@@ -75,38 +91,38 @@ func VerifC13ResmgrRevert() {
 		}
 
 		if cfg.reject {
-			verifCover("C13.rejected")
+			verifCover(verifC13P+".rejected")
 			if rejectedBefore {
-				verifCover("C13.rejected-twice-in-a-row")
+				verifCover(verifC13P+".rejected-twice-in-a-row")
 			}
-			verifAssert("C13.rejected.returns-error", err != nil)
-			verifAssert("C13.rejected.calls", len(calls) == 2 && calls[0] == interface{}(cfg) && calls[1] == interface{}(accepted))
-			verifAssert("C13.rejected.policy-in-effect", w.pol.inEffect == interface{}(accepted))
-			verifAssert("C13.rejected.resmgr-cfg", w.m.cfg == accepted)
+			verifAssert(verifC13P+".rejected.returns-error", err != nil)
+			verifAssert(verifC13P+".rejected.calls", len(calls) == 2 && calls[0] == interface{}(cfg) && calls[1] == interface{}(accepted))
+			verifAssert(verifC13P+".rejected.policy-in-effect", w.pol.inEffect == interface{}(accepted))
+			verifAssert(verifC13P+".rejected.resmgr-cfg", w.m.cfg == accepted)
 		} else {
-			verifCover("C13.accepted")
-			verifAssert("C13.accepted.returns-nil", err == nil)
-			verifAssert("C13.accepted.calls", len(calls) == 1 && calls[0] == interface{}(cfg))
-			verifAssert("C13.accepted.policy-in-effect", w.pol.inEffect == interface{}(cfg))
-			verifAssert("C13.accepted.resmgr-cfg", w.m.cfg == cfg)
+			verifCover(verifC13P+".accepted")
+			verifAssert(verifC13P+".accepted.returns-nil", err == nil)
+			verifAssert(verifC13P+".accepted.calls", len(calls) == 1 && calls[0] == interface{}(cfg))
+			verifAssert(verifC13P+".accepted.policy-in-effect", w.pol.inEffect == interface{}(cfg))
+			verifAssert(verifC13P+".accepted.resmgr-cfg", w.m.cfg == cfg)
 			accepted = cfg
 		}
 		rejectedBefore = cfg.reject
 
 		// whatever happened: everything belongs to the accepted configuration
-		verifAssert("C13.assignment-of-accepted-config", c0.res().GetCpu().GetCpus() == "cfg-"+accepted.name)
-		verifAssert("C13.cache-controls-of-accepted-config",
+		verifAssert(verifC13P+".assignment-of-accepted-config", c0.res().GetCpu().GetCpus() == "cfg-"+accepted.name)
+		verifAssert(verifC13P+".cache-controls-of-accepted-config",
 			w.cch.rdtControl == accepted.common.Control.RDT.Enable && w.cch.blockIOControl == accepted.common.Control.BlockIO.Enable)
-		verifAssert("C13.controllers-of-accepted-config", w.ctl.lastCfg == &accepted.common.Control)
+		verifAssert(verifC13P+".controllers-of-accepted-config", w.ctl.lastCfg == &accepted.common.Control)
 		// ... and every change was pushed to the runtime, once, after the
 		// policy's last word
-		verifAssert("C13.pushed-once-after-reconfigure", pushes == 1 && firstPush > lastReconf)
-		verifAssert("C13.nothing-left-pending", len(w.cch.pending) == 0 && c0.request == nil)
-		verifAssert("C13.runtime-told-current-assignment", told == c0.res().GetCpu().GetCpus())
-		verifAssert("C13.lock-free", verifRWMutexFree(&w.m.RWMutex))
+		verifAssert(verifC13P+".pushed-once-after-reconfigure", pushes == 1 && firstPush > lastReconf)
+		verifAssert(verifC13P+".nothing-left-pending", len(w.cch.pending) == 0 && c0.request == nil)
+		verifAssert(verifC13P+".runtime-told-current-assignment", told == c0.res().GetCpu().GetCpus())
+		verifAssert(verifC13P+".lock-free", verifRWMutexFree(&w.m.RWMutex))
 		if s := c0.ctr.State; s != cache.ContainerStateRunning {
-			verifAssert("C13.container-state-untouched", false)
+			verifAssert(verifC13P+".container-state-untouched", false)
 		}
 	}
-	verifCover("C13.done")
+	verifCover(verifC13P+".done")
 }
